@@ -14,6 +14,27 @@ pub(crate) fn check_unused_literals(items: &[ToplevelItem], env: &Env) -> Vec<Di
     visitor.diagnostics()
 }
 
+/// Is `expr` a literal built only from literals and variables, so
+/// evaluating it can't do anything?
+fn is_plain_literal(expr: &Expression) -> bool {
+    match &expr.expr_ {
+        Expression_::IntLiteral(_)
+        | Expression_::FloatLiteral(_)
+        | Expression_::StringLiteral(_)
+        | Expression_::Variable(_) => true,
+        Expression_::ListLiteral(items) => items.iter().all(|item| is_plain_literal(&item.expr)),
+        Expression_::TupleLiteral(items) => items.iter().all(|item| is_plain_literal(item)),
+        Expression_::DictLiteral(items) => items
+            .iter()
+            .all(|kv| is_plain_literal(&kv.key) && is_plain_literal(&kv.value)),
+        Expression_::StructLiteral(_, fields) => {
+            fields.iter().all(|(_, field_expr)| is_plain_literal(field_expr))
+        }
+        Expression_::Parentheses(paren) => is_plain_literal(&paren.expr),
+        _ => false,
+    }
+}
+
 struct UnusedLiteralVisitor<'a> {
     unused_literals: Vec<Diagnostic>,
     env: &'a Env,
@@ -45,10 +66,16 @@ impl<'a> UnusedLiteralVisitor<'a> {
         );
 
         if is_literal {
-            let fix = Autofix {
-                description: "Remove unused value".to_owned(),
-                position: self.get_line_position(&expr.position),
-                new_text: String::new(),
+            // Only offer to remove a literal whose items are plain
+            // values: `[foo()]` still calls `foo`.
+            let fixes = if is_plain_literal(expr) {
+                vec![Autofix {
+                    description: "Remove unused value".to_owned(),
+                    position: self.get_line_position(&expr.position),
+                    new_text: String::new(),
+                }]
+            } else {
+                vec![]
             };
 
             self.unused_literals.push(Diagnostic {
@@ -56,7 +83,7 @@ impl<'a> UnusedLiteralVisitor<'a> {
                 severity: Severity::Warning,
                 message: ErrorMessage(vec![Text("Unused value.".to_owned())]),
                 position: expr.position.clone(),
-                fixes: vec![fix],
+                fixes,
             });
         }
     }
